@@ -2872,13 +2872,23 @@ Proof.
   cbn [startswith String.eqb] in Hm. unfold ascii_eqb in Hm. rewrite H in Hm. discriminate.
 Qed.
 
+(* fix F17n: the legacy markers all begin with `<` *)
+Lemma not_legacy_head : forall c r, Ascii.eqb c "<" = false ->
+  existsb (fun m => startswith (String c r) m) PB.legacy_markers = false.
+Proof.
+  intros c r H. unfold PB.legacy_markers. cbn [existsb startswith]. unfold ascii_eqb. rewrite H. reflexivity.
+Qed.
+
 Lemma plain_not_terminator : forall c r, bad_start c = false -> rstrip (String c r) = String c r ->
   PB.is_join_block_terminator (String c r) = false.
 Proof.
   intros c r H Hrs. destruct (bad_start_facts c H) as [H0 [H1 [H2 [H3 [H4 [H5 [H6 [H7 H8]]]]]]]].
   unfold PB.is_join_block_terminator. rewrite strip_fixed; [|simpl; rewrite H0; reflexivity|exact Hrs].
   cbn [PB.nonempty negb startswith String.eqb]. unfold ascii_eqb. rewrite H6, H7, H2, H8. cbn [andb orb].
-  apply not_marker_head, H2.
+  match goal with |- (if ?e then true else ?f) = false =>
+    replace e with false by (symmetry; apply not_marker_head, H2);
+    replace f with false by (symmetry; apply not_legacy_head, H3) end.
+  reflexivity.
 Qed.
 
 Lemma join_item_lines : forall it l, join_item_ok it = true -> In l (print_item it) -> line_ok (indent_always l) = true ->
